@@ -320,6 +320,7 @@ func runC07() *RunResult {
 		ref       *ParsedFn   // reference function for documents edited in place
 		live      interface{} // one document object that the caller keeps and edits in place
 		model     string
+		idFn      *ParsedFn // model paths: the path followed by id()
 		hasMod    bool
 		modelVals []interface{}
 		fn        *ParsedFn
@@ -349,6 +350,9 @@ func runC07() *RunResult {
 			if r := modelEval(k.p.Model, k.doc); len(r) > 0 {
 				k.model = canon(r)
 				k.modelVals = r
+				if f := soloParse(&PathSpec{Text: k.p.Text + ".id()"}, orderCfg); f.Fn != nil {
+					k.idFn = f
+				}
 			} else {
 				k.model = "ERR"
 			}
@@ -417,6 +421,47 @@ func runC07() *RunResult {
 					if got != exp || gotLog != expLog {
 						t.fail("C07:order-differs-between-evaluations", k.p.Text, fmt.Sprintf("%v on a document object that was edited in place since its last evaluation\n  document now %s\n  got                                   %s\n  on an independently built equal document %s", o, clip(canon(k.live), 400), clip(got, 400), clip(exp, 400)))
 					}
+				}
+				t.ops = append(t.ops, o)
+			}
+			if k.idFn != nil && len(k.modelVals) >= 2 && chance(25) {
+				// a filter function behind the path fails for SOME of the values: the ones that
+				// remain keep the order of the path
+				mask := uint64(rn(1<<16)) | uint64(rn(1<<16))<<16
+				if chance(30) {
+					mask = 1 << uint(rn(len(k.modelVals)))
+				}
+				var fl [nFuncs]uint64
+				fl[fID] = mask
+				d := deepCopyRev(k.doc)
+				pol := 1 + rn(4)
+				o := &Op{Kind: opCustom, Path: &PathSpec{Text: k.p.Text + ".id()"}, Faults: fl}
+				o.Do = func(t *Task, o *Op) {
+					simrt.SetMapPolicy(pol)
+					var res []interface{}
+					res, o.Got = safeCall(k.idFn.Fn, d)
+					if simrt.Aborted() != 0 {
+						return
+					}
+					var want []interface{}
+					for i, v := range k.modelVals {
+						if i >= 64 || mask&(1<<uint(i)) == 0 {
+							want = append(want, v)
+						}
+					}
+					if len(want) == 0 || res == nil {
+						return // every call failed (an error is due): nothing to order
+					}
+					t.judged++
+					t.probe("function-failed-for-some-of-the-values")
+					if canon(res) == canon(want) {
+						return
+					}
+					if !sameMultiset(res, want) {
+						t.probe("selection-differs-from-model(not-judged)")
+						return
+					}
+					t.fail("C07:order-differs-from-specification", o.Path.Text, fmt.Sprintf("%v: id() failed for the calls %#x\n  document %s\n  got       %s\n  specified %s", o, mask, clip(canon(k.doc), 400), clip(o.Got, 400), clip(canon(want), 400)))
 				}
 				t.ops = append(t.ops, o)
 			}
